@@ -318,7 +318,8 @@ fn main() {
         let mut tag = "balanced";
         if rng.chance(1, 2) {
             tag = "perturbed";
-            match rng.below(10) {
+            match rng.below(11) {
+                10 => { outs[0].coin = outs[0].coin.saturating_add(fee); tag = "fee-not-deducted"; } // produced = spent, the fee on top
                 0 => fee2 = fee + 1,
                 1 => fee2 = fee - 1,
                 2 => { let k = rng.below(n_out as u64) as usize; outs[k].coin = outs[k].coin.wrapping_add(1); }
